@@ -303,7 +303,7 @@ func RunC09(c *core.Ctx) {
 		jobs = append(jobs, childJob{Mode: "emitter", Lic: 1 + i%3, Storage: "inmemory", Label: fmt.Sprintf("class-%02d-%s", i, cls), Seed: int64(i), Walk: walk})
 	}
 	// connections that never send CONNECT, in the canary context
-	for i, cls := range []string{"nothing", "ping", "disconnect", "cut-connect", "garbage", "sub-first", "pub-first"} {
+	for i, cls := range []string{"nothing", "ping", "disconnect", "cut-connect", "garbage", "sub-first", "pub-first", "will-deep-24", "will-deep-40", "will-long"} {
 		walk := []json.RawMessage{
 			mk(`{"n":"connect","c":"c1","u":"u-c1","will":{"on":false}}`),
 			mk(`{"n":"sub","c":"c1","k":"kAll","w":["a"],"syn":"ok","last":0,"win":"none"}`),
